@@ -1182,7 +1182,22 @@ def _mixed_hash_types(c, io, mo):
     signature's byte after parse; the last non-zero one after Input(signatures=...)): steps at which the signatures of
     one input carry different bytes, or the byte 00 on the constructor path; the only thing wrong with the answers is
     a True verdict at such a step"""
-    return prop_check(c, io) is not None and prop_check(c, io, exempt_mixed=True) is None
+    if prop_check(c, io) is None:
+        return False
+    if prop_check(c, io, exempt_mixed=True) is None:
+        return True
+    # one history that meets TWO recorded classes at different steps: a mixed-byte step (this class) and, at another
+    # step, a completeness failure of dup_point_keys / resign_keeps_stale (each only while recorded as known, and
+    # only when the history has the shape that class names).  Nothing else may be wrong with the answers.
+    marks = ((_same_point_twice(c) and _c02_recorded('dup_point_keys'))
+             or (_resigned(c) and _c02_recorded('resign_keeps_stale')))
+    return bool(marks) and (prop_check(c, io, exempt_mixed=True) or '').startswith('COMPLETENESS') \
+        and prop_check(c, io, exempt_mixed=True, exempt_marks=True) is None
+
+
+def _c02_recorded(cid):
+    from core import load_known
+    return any(e.get('id') == cid and e.get('status') == 'known' for e in load_known('C02'))
 
 
 def _unsynced(c, io, mo):
